@@ -125,12 +125,12 @@ ExhQuick == {
   Fam(3, {4}, {5, 6}, {1, 2}, {3, 5, 6, 7}, {5}) }             \* 4 tolerances
 \* thorough tier, exhaustive
 ExhThorough == {
-  Fam(2, {1, 2, 3}, {2, 3, 4, 5, 6, 7, 9}, {}, AllTols, {2}),
-  Fam(3, {1, 2, 3}, {4, 5, 6}, {}, {2, 3, 4, 5, 8}, {4}),
-  Fam(3, {4, 7}, {1, 2, 3}, {1, 2}, {1}, {3}),
-  Fam(3, {5, 8}, {1, 2, 3}, {1, 2}, {1, 11}, {1}),
-  Fam(3, {4}, {4, 5, 6}, {1, 2}, {3, 5, 6, 7}, {5}),
-  Fam(4, {4}, {5, 6}, {1, 2}, {1, 5, 7}, {1}) }
+  Fam(2, {1, 2, 3}, {3, 4, 5, 6, 7, 9}, {}, {2, 3, 4, 5, 6, 7, 8, 12}, {2}),
+  Fam(3, {1, 2, 3}, {4, 5, 6}, {}, {2, 3, 5}, {4}),
+  Fam(3, {4, 8}, {1, 2, 3}, {1, 2}, {1}, {3}),
+  Fam(3, {5}, {1, 2, 3}, {1, 2}, {1, 11}, {1}),
+  Fam(3, {4}, {4, 5, 6}, {1, 2}, {3, 6}, {5}),
+  Fam(4, {4}, {5, 6}, {1, 2}, {1, 5}, {1}) }
 
 RandAll == <<
   \* up to 12 rows, every schema, every tolerance; small values (wide ratios)
